@@ -92,20 +92,27 @@ class Prop:
         for r, o in zip(full, outs):
             self.check_one(ctx, 'itdma', (r,), o)
         rng = ctx.rng('commstate')
-        for t in SOTDMA_T + ITDMA_T + BOTH_T:
-            top = 1 << (20 if t in BOTH_T else 19)
-            if ctx.tier == 'thorough':
-                vals = range(top)
-            else:
-                vals = sorted(set(
-                    [0, 1, top - 1, top // 2, top // 2 - 1, top // 2 + 1] +
-                    [(a << 17) | (b << 14) | c for a in range(8) for b in range(8) for c in (0, 1, 0x3fff, 0x2aaa)
-                     if ((a << 17) | (b << 14) | c) < top] +
-                    [rng.randrange(top) for _ in range(6000)]))
-            lines = ['commstate %d %d' % (t, r) for r in vals]
-            outs = ctx.corr(lines, impl.step, 'commstate')
-            for r, o in zip(vals, outs):
-                self.check_one(ctx, 'commstate', (t, r), o)
+        types = SOTDMA_T + ITDMA_T + BOTH_T
+        if ctx.tier == 'thorough':
+            vals = range(1 << 20)
+        else:
+            vals = sorted(set(
+                [0, 1, (1 << 19) - 1, 1 << 19, (1 << 19) + 1, (1 << 20) - 1, (1 << 18), (1 << 18) - 1] +
+                [(s << 19) | (a << 17) | (b << 14) | c for s in (0, 1) for a in range(4) for b in range(8)
+                 for c in (0, 1, 0x3fff, 0x2aaa, 0x1555)] +
+                [rng.randrange(1 << 20) for _ in range(6000)]))
+        # every radio value is queried with ALL types back to back (same process, same value, different
+        # classification), so that state leaking between calls would be noticed as well
+        lines, meta = [], []
+        for r in vals:
+            for t in types:
+                if t not in BOTH_T and r >= (1 << 19):
+                    continue
+                lines.append('commstate %d %d' % (t, r))
+                meta.append((t, r))
+        outs = ctx.corr(lines, impl.step, 'commstate')
+        for (t, r), o in zip(meta, outs):
+            self.check_one(ctx, 'commstate', (t, r), o)
         ctx.dist['exhaustive_sotdma_itdma'] = 1
 
     def replay(self, ctx, payload):
